@@ -67,6 +67,10 @@ def arc_job(job):
         rx, cls = 0.0, "zeroradius"
     if s == e:
         cls = "coincident"
+    if mode == "tinier":
+        # ... and a few 10^-10 apart: still two different points (only IDENTICAL end points make an arc vanish)
+        E = (S[0] + 4e-10, S[1] - 3e-10)
+        cls = "tiny"
     if mode == "tiny":
         # distinct end points a 10^-4 of a radius apart (extent of a few thousandths of a degree)
         E = (S[0] + 0.7e-4 * r * sc, S[1] - 0.4e-4 * r * sc)
@@ -135,6 +139,8 @@ def jobs_for(tier, rng):
             for sweep in (0, 1):
                 jobs.append((r, (0, 0), s, s, 0, sweep, rng.choice([1, 2]), 1, rng.choice([0, 90, "345"]),
                              rng.choice([0, -3, 3]), "tiny"))
+                for large in (0, 1):
+                    jobs.append((r, (0, 0), s, s, large, sweep, 1, 1, rng.choice([0, 90]), 0, "tinier"))
         for s in pts[:6]:
             for e in pts[2:5]:
                 for large, sweep in itertools.product((0, 1), repeat=2):
